@@ -381,7 +381,7 @@ def coq_term(case, res):
 def dump_term(case, res):
     K = core.cqlist2(res["K"])
     return (f"let '(sel, w) := find_prototypes {cmethod(case)} {core.cq(EPS32)} {K} {core.cnat(res['bs_eff'])} "
-            f"{core.cnat(case['np'])} in (sel, map qdump w)")
+            f"{core.cnat(case['np'])} in (map (fun bp => [fst bp; snd bp]) sel, map qdump w)")
 
 
 def explain_failure(case, res, model):
